@@ -391,6 +391,8 @@ def make_datetime_module(E):
     td = _cls('timedelta')
     dt = _cls('datetime')
     M.CLASS_CTOR_MODELS['timedelta'] = _td_ctor
+    # bool(timedelta) is False exactly for the zero period (CPython: timedelta.__bool__)
+    M.TRUTH_MODELS['timedelta'] = lambda E_, v: mk_bool(I(v.attrs['us']) != 0)
     M.OBJ_ATTR_MODELS['timedelta'] = _td_attr
     M.CLASS_ATTR_MODELS['datetime'] = lambda E_, c, n: (
         Builtin('datetime.now', lambda *a: mk_datetime(E_, mk_int(now(E_)))) if n in ('now', 'utcnow') else M.NOATTR)
